@@ -24,7 +24,7 @@ func registerC14() {
 			"two-byte preimage computed with the bit-serial reference (every (state, byte) pair is one distinct non-trivial case); family streaming: PRNG byte strings " +
 			"(length 0..5000) x PRNG write partitions, compared with the reference (each part written through Write, io.WriteString / WriteString, WriteByte if offered, io.Copy from strings and bytes readers, or a bufio.Writer), also fed through io.Copy / io.CopyN from short-reading and data-with-EOF readers, Reset, residue and Sum(nil); distinct by string digest; family long-writes: for each of the " +
 			"65536 register states s and block offsets 0/4/8/.../28 one single Write of >= 64 bytes that drives the register to s and then feeds it s itself followed by zero bytes " +
-			"(the input on which multi-byte-at-a-time and zero-skipping implementations go wrong), compared with the reference and with a byte-wise feed; family lengths: single writes of 30 KB - 2.3 MB (from zero and non-zero starting states, workers with GOMAXPROCS=4) whose length (and whose halves, thirds, " +
+			"(the input on which multi-byte-at-a-time and zero-skipping implementations go wrong), compared with the reference and with a byte-wise feed; family lengths: single writes of 30 KB - 2.3 MB (and a few of 4 - 33 MiB) (from zero and non-zero starting states, workers with GOMAXPROCS=4) whose length (and whose halves, thirds, " +
 			"quarters and eighths) sit at and around multiples of 32767 - the order of x modulo the CRC polynomial, where implementations that split a write and combine partial sums wrap - plus PRNG long lengths, from PRNG starting states",
 		Assume:        []string{"the bit-serial reference CRC-16/ARC (12 lines, checked against the catalogue check value 0xBB3D) is the specification"},
 		MinNontrivial: 1 << 24,
@@ -299,6 +299,11 @@ func c14Lengths(c *lib.Ctx, idx uint64) {
 		for n > 2300000 {
 			n -= base
 		}
+	}
+	if idx%29 == 7 {
+		// single writes of many megabytes: at and around 4, 8, 16 and 32 MiB and in between
+		big := []int{4<<20 + 3, 4 << 20, 4<<20 + 1, 5<<20 + 3, 8<<20 + 1, 8<<20 - 1, 12<<20 - 7, 16<<20 + 5, 33<<20 + 7, 6<<20 + 4099}
+		n = big[int(idx/29)%len(big)]
 	}
 	d := rng.Bytes(n)
 	c.SetInflight(d[:minInt(n, 64)])
